@@ -4,6 +4,7 @@ package sx
 
 import (
 	"go/types"
+	"net/http"
 	"net/url"
 	"strings"
 )
@@ -37,6 +38,48 @@ func (i *interpreter) mkURL(scheme, host, path, rawq value) *value {
 }
 
 func init() {
+	intrinsics["net/http.DetectContentType"] = func(fr *frame, a []value) value {
+		if c, ok := fr.i.strArg(a[0]).(string); ok {
+			return http.DetectContentType([]byte(c))
+		}
+		// content sniffing of symbolic bytes: some non-empty media type
+		r := fr.i.path.freshVar("ctype", SStr)
+		fr.i.path.assume(fr.i.path.mkIntCmp(">=", fr.i.path.mkLen(r), int64(1)))
+		fr.i.ex.noteApprox("http.DetectContentType of symbolic bytes: arbitrary non-empty result")
+		return r
+	}
+	escape := func(name string, real func(string) string, safe func(b int) bool) {
+		intrinsics[name] = func(fr *frame, a []value) value {
+			if c, ok := a[0].(string); ok {
+				return real(c)
+			}
+			// escaping works byte by byte: do it segment by segment
+			var out value = ""
+			for _, sg := range segmentsOf(a[0]) {
+				switch sg := sg.(type) {
+				case string:
+					out = mkConcat(out, real(sg))
+				case *Sym:
+					al, ok := fr.i.path.alpha[sg.e]
+					if !ok {
+						unsup("%s on a symbolic string of unknown alphabet", name)
+					}
+					for b := 0; b < 256; b++ {
+						if al[b] && !safe(b) {
+							unsup("%s on a symbolic string whose alphabet needs escaping", name)
+						}
+					}
+					out = mkConcat(out, sg) // nothing to escape
+				}
+			}
+			return out
+		}
+	}
+	unreserved := func(b int) bool {
+		return b >= 'a' && b <= 'z' || b >= 'A' && b <= 'Z' || b >= '0' && b <= '9' || b == '-' || b == '_' || b == '.' || b == '~'
+	}
+	escape("net/url.QueryEscape", url.QueryEscape, unreserved)
+	escape("net/url.PathEscape", url.PathEscape, unreserved)
 	reg := func(name string, h intrinsic) { intrinsics[name] = h }
 	verifAPI["verifURL"] = func(fr *frame, a []value) value {
 		u := mkConcat(mkConcat(mkConcat(a[0], "://"), a[1]), a[2])
